@@ -48,12 +48,12 @@ Ltac inv_some :=
    projection applied to a chain of setters *)
 Ltac cbn_st :=
   cbn [hmap next_hid hpub pending ptaker amu smu refs sem latest lsrc pubhead lastRecv lastTaken
-       events hooks gtodo goal panicked ordered regress nexp next_tid threads
+       events hooks ehooks gtodo goal panicked ordered regress nexp next_tid threads
        set_hmap set_next_hid set_hpub set_pending set_ptaker set_amu set_smu set_refs set_sem
-       set_latest set_lsrc set_pubhead set_lastRecv set_lastTaken set_events set_hooks set_gtodo
+       set_latest set_lsrc set_pubhead set_lastRecv set_lastTaken set_events set_hooks set_ehooks set_gtodo
        set_goal set_panicked set_ordered set_regress set_nexp set_next_tid set_threads put
        t_kind t_pc t_pub t_h t_msg t_stop t_ok t_todo mk_thread set_pc set_h set_msg set_stop set_ok set_todo
-       lockfix reffix fixed exit_pc exit_locked exit_unlocked is_explicit] in *.
+       lockfix reffix fixed exit_pc exit_locked exit_unlocked is_explicit is_entries] in *.
 
 Ltac step_inv H :=
   match type of H with
@@ -62,12 +62,13 @@ Ltac step_inv H :=
     let Hs := fresh "Hs" in
     destruct (stepo fixed cap s l) as [[? ?]|] eqn:Hs; [|discriminate H];
     inversion H; subst; clear H;
-    destruct l as [p|p c|p|p removed|p c|t ok]; cbn [stepo] in Hs;
+    destruct l as [p|p c|p|p n|p removed|p c|t ok]; cbn [stepo] in Hs;
     [ inv_some
     | destruct (threads s watcher_tid) as [th|] eqn:Hth; [|discriminate Hs];
       destruct (t_pc th) eqn:Hpc; try discriminate Hs;
       destruct c as [|c]; [discriminate Hs|]; inv_some
     | inv_some
+    | destruct n as [|n]; [discriminate Hs|]; inv_some
     | destruct (hmap s p) as [h|] eqn:Hhm;
       [ cbn [reffix fixed andb] in Hs; destruct (refs s h) as [|r0 rr] eqn:Hrefs; cbn [is_nil negb] in Hs;
         destruct removed; try discriminate Hs; inv_some
@@ -142,6 +143,7 @@ Definition pc_ok (k : kind) (p : pc) : bool :=
   | KExplicit, EGet => true
   | (KAsync | KExplicit), (PLockS | PRead | PCmp | PHandle | PReport | PUnlocking | PHandled | PSend | PUnlockS | PRelH | Fin) => true
   | KAsync, (PRelSem | PUnlockA) => true
+  | KEntries, (EGet | PLockS | PHandle | PReport | PUnlocking | PUnlockS | PRelH | Fin) => true
   | _, _ => false
   end.
 
@@ -179,7 +181,7 @@ Proof.
          try (split; intro; [try discriminate; try lia | try lia; try tauto]); fail);
     try (match goal with |- exists th, updf _ ?u _ 0 = Some th =>
            destruct (Nat.eq_dec 0 u) as [E|E]; [subst; rewrite updf_same; eexists; reflexivity | rewrite updf_other by assumption; eauto] end; fail).
-  - exists thw. rewrite updf_other by lia. exact A4.
+  all: try (exists thw; rewrite updf_other by lia; exact A4).
   - destruct (Nat.eq_dec 0 t) as [E|E].
     + subst. rewrite updf_same. eexists; reflexivity.
     + rewrite updf_other by assumption. rewrite updf_other by lia. eauto.
@@ -668,7 +670,7 @@ Proof.
   - destruct (Gsmu _ _ E) as (th1 & X1 & X2 & X3). exists t1.
     eapply nonblocking_enabled; eauto. apply in_smu_nonblocking; assumption.
   - exists t. unfold enabled, stepf; cbn [stepo]. rewrite H. unfold step_thread. rewrite Hpc, E.
-    cbn. exists true. eexists; reflexivity.
+    cbn. exists true. destruct (t_kind th); eexists; reflexivity.
 Qed.
 
 Lemma permit_enabled_or_holder cap s t th :
